@@ -56,10 +56,12 @@ Cat(d, v) ==
   ELSE IF d = 2 THEN (IF v % 3 = 0 THEN [band |-> 1, C |-> << <<2, 1>>, <<1, 2>> >>]
                       ELSE IF v % 3 = 1 THEN [band |-> 0, C |-> << <<1, 0>>, <<0, 4>> >>]
                       ELSE [band |-> 1, C |-> << <<4, -2>>, <<-2, 5>> >>])
-  ELSE IF d = 3 THEN (IF v % 3 = 0 THEN [band |-> 1, C |-> << <<2, 1, 0>>, <<1, 2, 1>>, <<0, 1, 2>> >>]
-                      ELSE IF v % 3 = 1 THEN [band |-> 2, C |-> << <<4, 2, 1>>, <<2, 3, 1>>, <<1, 1, 2>> >>]
+  ELSE IF d = 3 THEN (IF v % 4 = 0 THEN [band |-> 1, C |-> << <<2, 1, 0>>, <<1, 2, 1>>, <<0, 1, 2>> >>]
+                      ELSE IF v % 4 = 1 THEN [band |-> 2, C |-> << <<4, 2, 1>>, <<2, 3, 1>>, <<1, 1, 2>> >>]
+                      ELSE IF v % 4 = 2 THEN [band |-> 2, C |-> << <<4, 0, 1>>, <<0, 5, 1>>, <<1, 1, 6>> >>]      \* a zero inside the band
                       ELSE [band |-> 0, C |-> << <<1, 0, 0>>, <<0, 4, 0>>, <<0, 0, 9>> >>])
-  ELSE IF d = 4 THEN (IF v % 4 = 0 THEN [band |-> 1, C |-> << <<2, 1, 0, 0>>, <<1, 2, 1, 0>>, <<0, 1, 2, 1>>, <<0, 0, 1, 2>> >>]
+  ELSE IF d = 4 THEN (IF v % 5 = 4 THEN [band |-> 2, C |-> << <<4, 0, 1, 0>>, <<0, 5, 1, 1>>, <<1, 1, 6, 2>>, <<0, 1, 2, 5>> >>]   \* zeros inside the band
+                      ELSE IF v % 4 = 0 THEN [band |-> 1, C |-> << <<2, 1, 0, 0>>, <<1, 2, 1, 0>>, <<0, 1, 2, 1>>, <<0, 0, 1, 2>> >>]
                       ELSE IF v % 4 = 1 THEN [band |-> 2, C |-> << <<4, 1, 1, 0>>, <<1, 4, 1, 1>>, <<1, 1, 4, 1>>, <<0, 1, 1, 4>> >>]
                       ELSE IF v % 4 = 2 THEN [band |-> 3, C |-> << <<5, 1, 1, 1>>, <<1, 5, 1, 1>>, <<1, 1, 5, 1>>, <<1, 1, 1, 5>> >>]
                       ELSE [band |-> 1, C |-> << <<4, -1, 0, 0>>, <<-1, 4, -1, 0>>, <<0, -1, 4, -1>>, <<0, 0, -1, 4>> >>])
@@ -69,7 +71,7 @@ Cat(d, v) ==
 (* their adjugate is not computed (8! terms): W = <<>> and det = 0 tell the harness to apply   *)
 (* inv(C) through its own dense Cholesky factor, which it verifies against C                   *)
 BigC(d, w) == [i \in 1..d |-> [j \in 1..d |-> IF i = j THEN 10 + (i % 3)
-                                              ELSE IF Abs(i - j) <= w THEN (IF (i + j) % 3 = 0 THEN -1 ELSE 1) ELSE 0]]
+                                              ELSE IF Abs(i - j) <= w THEN (IF (i + j) % 5 = 0 THEN 0 ELSE IF (i + j) % 3 = 0 THEN -1 ELSE 1) ELSE 0]]
 BigBlock(d, w) == [dim |-> d, band |-> w, C |-> BigC(d, w), W |-> <<>>, det |-> 0]
 
 RECURSIVE Comp(_)
